@@ -318,6 +318,21 @@ class ClassInfo:
                 return c.methods[name]
         return None
 
+    def record_fields(self):
+        """field names, in order, when this class is a plain record: a typing.NamedTuple or a @dataclass without an __init__ of its own
+        (the constructor just stores its arguments: Rec(a, b).x is a); else None"""
+        if '__init__' in self.methods or '__new__' in self.methods:
+            return None
+        is_nt = any(str(b).split('.')[-1] == 'NamedTuple' for b in self.ext_bases())
+        is_dc = any(norm(d.func if isinstance(d, ast.Call) else d).split('.')[-1] == 'dataclass' for d in self.node.decorator_list)
+        if not (is_nt or is_dc):
+            return None
+        out = []
+        for st in self.node.body:
+            if isinstance(st, ast.AnnAssign) and isinstance(st.target, ast.Name):
+                out.append((st.target.id, st.value))
+        return out or None
+
     def is_subclass_of(self, other):
         return other in self.mro()
 
